@@ -15,7 +15,8 @@ LEVEL = "exploration"
 RULE = (
     "two case families. (script) 2-3 threads, each with a list of operations in {call the SHARED DAG with its own "
     "arguments, build a DAG from a generated program (optionally pausing inside the describing function at a drawn "
-    "statement boundary, i.e. while tawazi's description lock is held), call a decorated function outside any DAG}; a "
+    "statement boundary, i.e. while tawazi's description lock is held), call a decorated function outside any DAG, "
+    "reload the configuration of a DAG owned by that thread and run it}; a "
     "drawn global order steps the threads one stop point at a time, so calls and outside-DAG invocations happen WHILE "
     "another thread is inside a description. oracle: each call returns the reference value for its own arguments; an "
     "outside-DAG call raises TawaziUsageError / returns the plain value (per cfg.TAWAZI_EXECNODE_OUTSIDE_DAG_BEHAVIOR) "
@@ -33,9 +34,11 @@ STEP_WAIT = 0.25
 
 
 class Worker(threading.Thread):
-    def __init__(self, idx: int, ops: List[Dict[str, Any]], shared: Any, outside: Any, shared_prog: Dict[str, Any]) -> None:
+    def __init__(self, idx: int, ops: List[Dict[str, Any]], shared: Any, outside: Any, shared_prog: Dict[str, Any],
+                 private: Any = None) -> None:
         super().__init__(daemon=True)
         self.idx, self.ops, self.shared, self.outside, self.sp = idx, ops, shared, outside, shared_prog
+        self.private = private  # a DAG owned by this thread alone (built before the threads start)
         self.go = threading.Semaphore(0)
         self.stopped = threading.Event()  # set whenever the thread reaches a stop point
         self.paused = False
@@ -61,6 +64,13 @@ class Worker(threading.Thread):
                         r["value"] = self.shared.dag(*[prog.dec(a) for a in op["args"]])
                 elif op["op"] == "outside":
                     r["value"] = self.outside(prog.dec(op["arg"]))
+                elif op["op"] == "reconf":
+                    # reload the configuration of this thread's own DAG (possibly while another thread describes one)
+                    self.private.dag.config_from_dict(op["conf"])
+                    r["dump"] = dump(self.private.dag)
+                    ex = sched.Exec("free")
+                    with ex:
+                        r["value"] = self.private.dag()
                 elif op["op"] == "build":
                     k = op.get("pause")
 
@@ -101,7 +111,16 @@ def _script(case: Dict[str, Any], res: CaseResult) -> None:
             for oi, op in enumerate(ops):
                 if op["op"] == "build":
                     alone[f"{ti}.{oi}"] = dump(prog.build(op["prog"], mc=2).dag)
-        workers = [Worker(i, ops, shared, outside, SP) for i, ops in enumerate(case["threads"])]
+            if case.get("private"):
+                # the same reconfigurations applied in the same order to a DAG nobody interferes with
+                pb = prog.build(case["private"], mc=2)
+                for oi, op in enumerate(ops):
+                    if op["op"] == "reconf":
+                        pb.dag.config_from_dict(op["conf"])
+                        alone[f"{ti}.{oi}"] = dump(pb.dag)
+        PP = case.get("private")
+        privates = [prog.build(PP, mc=2) if PP else None for _ in case["threads"]]
+        workers = [Worker(i, ops, shared, outside, SP, privates[i]) for i, ops in enumerate(case["threads"])]
         for w in workers:
             w.start()
         during_pause = 0
@@ -118,7 +137,7 @@ def _script(case: Dict[str, Any], res: CaseResult) -> None:
             started[w.idx] = True
             w.go.release()
             reached = w.stopped.wait(STEP_WAIT)
-            if others_paused and reached and nxt < len(w.ops) and w.ops[nxt]["op"] in ("call", "outside"):
+            if others_paused and reached and nxt < len(w.ops) and w.ops[nxt]["op"] in ("call", "outside", "reconf"):
                 during_pause += 1
         # drain: release everything until all threads are done
         end = time.monotonic() + 20.0
@@ -147,6 +166,15 @@ def _script(case: Dict[str, Any], res: CaseResult) -> None:
                         res.viol("call-described-instead-of-run", f"calling the shared DAG returned {prog.foreign_objects(r['value'])[:3]} (it was recorded into another thread's description instead of being executed)" + tag)
                     elif r["value"] != want:
                         res.viol("call-value", f"the shared DAG returned {r['value']!r}, reference {want!r}" + tag)
+                elif op["op"] == "reconf":
+                    if "exc" in r:
+                        res.viol("reconf-raised", f"config_from_dict on a thread's own DAG raised {type(r['exc']).__name__}: {str(r['exc'])[:200]}" + tag)
+                        continue
+                    if r["dump"] != alone[f"{w.idx}.{oi}"]:
+                        res.viol("reconf-differs", "a DAG reconfigured while other threads were active differs from the same DAG reconfigured alone" + tag)
+                    want = prog.ref_run(case["private"], [], prog.Ref())
+                    if prog.foreign_objects(r.get("value")) or r.get("value") != want:
+                        res.viol("reconf-dag-value", f"a DAG reconfigured while other threads were active returns {r.get('value')!r}, reference {want!r}" + tag)
                 elif op["op"] == "outside":
                     beh = case.get("outside_behavior", "error")
                     if beh == "error":
@@ -232,18 +260,24 @@ def cases(draw: Any, tier: str) -> Dict[str, Any]:
     if draw(st.sampled_from([True] + [False] * 5)):
         return {"family": "stress", "shared": shared, "n_threads": 8, "n_calls": draw(st.integers(20, 60)), "mc": draw(st.integers(1, 3))}
     nthreads = draw(st.integers(2, 3))
+    private = draw(gen.flat_prog(min_sites=2, max_sites=4, max_deps=2, resources=("thread", "main-thread"),
+                                 dep_kinds=("pos", "kw"), name="PV", prio_range=(0, 2)))
+    psites = [s["site"].lstrip(prog.MARK) for s in private["body"]]
     threads: List[List[Dict[str, Any]]] = []
     nb = 0
     for t in range(nthreads):
         ops: List[Dict[str, Any]] = []
         for _ in range(draw(st.integers(1, 3))):
-            k = draw(st.sampled_from(["call", "call", "outside", "build", "build"]))
+            k = draw(st.sampled_from(["call", "call", "outside", "build", "build", "reconf"]))
             if t == 0 and not ops:
                 k = "build"  # thread 0 starts with a (usually pausing) build
             if k == "call":
                 ops.append({"op": "call", "args": [draw(st.sampled_from([0, 1, 10, "a", None]))]})
             elif k == "outside":
                 ops.append({"op": "outside", "arg": draw(st.sampled_from([5, "z"]))})
+            elif k == "reconf":
+                some = draw(st.lists(st.sampled_from(psites), min_size=1, max_size=len(psites), unique=True))
+                ops.append({"op": "reconf", "conf": {"nodes": {t_: {"priority": draw(st.integers(-2, 4)), "is_sequential": draw(st.booleans())} for t_ in some}}})
             else:
                 P = draw(gen.flat_prog(min_sites=1, max_sites=4, max_deps=2, resources=("thread", "main-thread"),
                                        dep_kinds=("pos", "kw"), name=f"B{nb}", reuse=True))
@@ -253,7 +287,7 @@ def cases(draw: Any, tier: str) -> Dict[str, Any]:
         threads.append(ops)
     total = sum(len(o) + sum(1 for x in o if x["op"] == "build" and x.get("pause") is not None) for o in threads)
     order = [0] + draw(st.lists(st.integers(0, nthreads - 1), min_size=total, max_size=total + 3))
-    return {"family": "script", "shared": shared, "threads": threads, "order": order,
+    return {"family": "script", "shared": shared, "private": private, "threads": threads, "order": order,
             "outside_behavior": draw(st.sampled_from(["error", "error", "ignore"]))}
 
 
